@@ -1,7 +1,7 @@
 #!/bin/bash
 # revert_all.sh: sensitivity by reverted repairs. For every "fixed:" entry of KNOWN_FINDINGS.txt the repair commit is reverted
 # (uncommitted) in the tree under test ($REPO, a git checkout; default /repo - nothing else may build from it meanwhile), the
-# property's quick check is run, and the revert is undone. One verdict line per entry; a check that stays silent is a MISS.
+# property's quick check is run WITHOUT the regression replays of findings/ (the search alone has to find it), and the revert is undone. One verdict line per entry; a check that stays silent is a MISS.
 cd "$(dirname "$0")/.."
 R=${REPO:-/repo}
 grep '^fixed:' KNOWN_FINDINGS.txt | while read -r line; do
@@ -9,7 +9,7 @@ grep '^fixed:' KNOWN_FINDINGS.txt | while read -r line; do
   git -C $R diff --quiet || { echo "$R has uncommitted changes"; exit 2; }
   if ! git -C $R revert -n $c >/dev/null 2>&1; then git -C $R revert --abort 2>/dev/null; git -C $R reset -q --hard; echo "$c $prop revert-conflict"; continue; fi
   rm -rf out/$prop
-  ./check $prop --tier quick > /tmp/revert-$c.log 2>&1; rc=$?
+  VERIF_NO_REGRESSION_REPLAYS=1 ./check $prop --tier quick > /tmp/revert-$c.log 2>&1; rc=$?
   if grep -q '^VIOLATION' /tmp/revert-$c.log; then v="caught: $(grep -A1 '^VIOLATION' /tmp/revert-$c.log | grep -m1 'signature=' | sed 's/^ *//')"; else v="MISSED (rc=$rc)"; fi
   echo "$c $prop $v"
   git -C $R revert --abort 2>/dev/null; git -C $R reset -q --hard
